@@ -189,6 +189,28 @@ def tokensDocs : List JV → List Tok
   | [] => []
   | v :: vs => tokens v ++ tokensDocs vs
 
+/-! ## the same tokens, each tagged: does it complete a value (a scalar in value position, a
+    closing delimiter) — these are the tokens at which one event becomes determined -/
+
+mutual
+def ttokens : JV → List (Tok × Bool)
+  | .arr xs => (.lbrack, false) :: (ttokensL xs ++ [(.rbrack, true)])
+  | .obj kvs => (.lbrace, false) :: (ttokensM kvs ++ [(.rbrace, true)])
+  | .null => [(.atom .null, true)]
+  | .bool b => [(.atom (.bool b), true)]
+  | .num n => [(.atom (.num n), true)]
+  | .str s => [(.atom (.str s), true)]
+def ttokensL : List JV → List (Tok × Bool)
+  | [] => []
+  | x :: xs => ttokens x ++ ttokensL xs
+def ttokensM : List (Bytes × JV) → List (Tok × Bool)
+  | [] => []
+  | (k, x) :: xs => (.atom (.str k), false) :: (ttokens x ++ ttokensM xs)
+end
+
+/-- number of value-completing tokens -/
+def completed (l : List (Tok × Bool)) : Nat := l.countP (·.2)
+
 /-! ## `tostream` (builtin.jq) as a specification, members in stored order -/
 
 mutual
@@ -289,6 +311,23 @@ def canonL : List JV → List JV
 def canonM (acc : List (Bytes × JV)) : List (Bytes × JV) → List (Bytes × JV)
   | [] => acc
   | (k, x) :: xs => canonM (kvInsert k (canon x) acc) xs
+end
+
+/- objects are duplicate-free at every depth -/
+mutual
+def nodup : JV → Prop
+  | .arr xs => nodupL xs
+  | .obj kvs => nodupM kvs
+  | .null => True
+  | .bool _ => True
+  | .num _ => True
+  | .str _ => True
+def nodupL : List JV → Prop
+  | [] => True
+  | x :: xs => nodup x ∧ nodupL xs
+def nodupM : List (Bytes × JV) → Prop
+  | [] => True
+  | (k, x) :: rest => (∀ p ∈ rest, p.1 ≠ k) ∧ nodup x ∧ nodupM rest
 end
 
 end Gojq.Stream
